@@ -23,14 +23,17 @@ RULE = (
     "n calls with inter-arrival gaps in {0, P/2, P, 3P/2}, limit 1..3, period as float or "
     "timedelta, call duration in {0, P/2, P, 2P}, optionally one failing call (own exception class, or one of 13 built-in classes a wrapper might handle itself); all orders of timers "
     "sharing a deadline, sub-family with two equal-deadline timers landing in one loop iteration; sub-family with one caller cancelled at any quiescent point (window / order "
-    "/ outcome of the other calls); two throttled functions used interleaved (own windows); non-trivial = at least one call was delayed or more than `limit` calls "
+    "/ outcome of the other calls); two throttled functions used interleaved (own windows); long patterns of 8..16 calls (a gap cycle of length <= 2 repeated, then <= 2 free gaps; limits 1..4; tie orders with a stated deviation bound); non-trivial = at least one call was delayed or more than `limit` calls "
     "arrived within one period"
 )
 ASSUMPTIONS = [
     "virtual time in exact dyadic units (P = 1.0 as float, 1.5 s as timedelta)",
     "arrival order = order in which the wrapper was invoked",
 ]
-BOUNDS = {"quick": {"n_max": 5}, "thorough": {"n_max": 7}}
+BOUNDS = {
+    "quick": {"n_max": 5, "long_patterns": "n in {8, 12}, gap cycle (len <= 2) + <= 2 free gaps, limits 1..4, <= 2 tie-order deviations"},
+    "thorough": {"n_max": 7, "long_patterns": "n in {8, 10, 12, 16}, gap cycle (len <= 2) + <= 2 free gaps, limits 1..4, <= 3 tie-order deviations"},
+}
 EXHAUSTIVE = {"quick": True, "thorough": True}
 SAMPLE_EVERY = {"quick": 3000, "thorough": 60000}
 
@@ -66,6 +69,7 @@ def programs(tier: str):
                                 "fail": fail,
                             }
     yield from _cancel_programs(tier)
+    yield from _long_programs(tier)
     # the decorator's defaults (limit 1, period 1 s): bare, called without arguments, one given
     for form, limit in (("bare", 1), ("call", 1), ("limit-only", 2), ("limit-only", 1), ("period-only", 1)):
         for n in (2, 3, 4):
@@ -96,6 +100,23 @@ def programs(tier: str):
     for limit in (1, 2):
         for gaps in ([0.0, 0.0], [0.0, 0.5, 0.0], [0.5, 0.5]):
             yield {"gaps": gaps, "limit": limit, "dur": 0.5, "period": "float", "fail": None, "attrs": True}
+
+
+def _long_programs(tier: str):
+    """long arrival patterns (the statement speaks of up to 12 calls): a gap cycle of length <= 2
+    repeated until n - s calls have arrived, then every continuation of s <= 2 further gaps;
+    limits 1..4.  Exhaustive for that family (all tie orders of equal-deadline timers)."""
+    cycles = [[g] for g in GAPS] + [[a, b] for a in GAPS for b in GAPS if a != b]
+    for n in (8, 12) if tier == "quick" else (8, 10, 12, 16):
+        for cyc in cycles:
+            for s in (0, 1, 2):
+                base = (cyc * n)[: n - 1 - s]
+                for tail in itertools.product(GAPS, repeat=s):
+                    for limit in (1, 2, 3, 4):
+                        for dur in (0.0, 0.5) if tier == "quick" else (0.0, 0.5, 2.0):
+                            if tier == "quick" and s == 2 and (limit in (3,) or dur == 0.5 and n == 12):
+                                continue
+                            yield {"gaps": base + list(tail), "limit": limit, "dur": dur, "period": "float", "fail": None, "long": True}
 
 
 def _cancel_programs(tier: str):
@@ -183,7 +204,14 @@ def _two_throttles(program, ch: Chooser) -> Result:
         w.close()
 
 
+DECLARED_DEVIATION_BOUND = {"quick": 2, "thorough": 3}  # for the long patterns only (BOUNDS / RULE say so)
+
+
 def explore_config(tier: str, program) -> dict:
+    if program.get("long"):
+        # 8..16 calls: every tie order is exponential; all executions with at most 2 (3) non-default
+        # tie choices are explored (CHESS-style deviation bound), the default being FIFO
+        return {"cap": 400000, "bound": DECLARED_DEVIATION_BOUND[tier]}
     return {"cap": 400000}
 
 
